@@ -47,18 +47,27 @@ const (
 	CtSwitches // steps at which the running task changed
 	CtInnerYields
 	CtFaultStall // fault: a task pre-empted at an inner point was held back for several steps
+	CtBlockedYields
+	CtSpinBreaks
+	CtFaultClockJump
+	CtTimersFired
+	CtSpawned
 	NumCounters
 )
 
 // CounterNames for evidence.
 var CounterNames = [NumCounters]string{"pool_get", "pool_get_hit", "pool_get_new", "pool_put",
-	"fault_putdrop", "fault_miss", "fault_gc", "gc_dropped_objects", "steps", "task_switches", "inner_yields", "fault_stall"}
+	"fault_putdrop", "fault_miss", "fault_gc", "gc_dropped_objects", "steps", "task_switches", "inner_yields", "fault_stall", "blocked_yields", "spin_breaks", "fault_clock_jump", "timers_fired", "library_goroutines_as_tasks"}
 
 // FaultDen is the denominator of all fault rates.
 const FaultDen = 256
 
 // MaxSites bounds the site numbers a harness may use.
 const MaxSites = 64
+
+// spinLimit: statements a task may execute in one step before it is treated
+// as spin-waiting.
+const spinLimit = 200000
 
 const (
 	siteStart = MaxSites - 2
@@ -86,6 +95,9 @@ type Task struct {
 	lockDepth  int     // library locks currently held by the task: no inner yields while > 0
 	inner      bool    // parked at an inner point (inside a library call)
 	stallUntil int     // not runnable before this step (stall fault), unless everybody is stalled
+	blocked    bool    // last yield was Blocked(): waiting for a lock, channel, timer or flag
+	root       bool    // registered by the harness (joined at the end); false = started by the library
+	started    bool    // goroutine already created (tasks the library started)
 }
 
 // Sim is one simulated run: choice source, scheduler, stub-pool environment.
@@ -102,23 +114,27 @@ type Sim struct {
 	objs        []unsafe.Pointer
 
 	// scheduler
-	Strategy    int
-	StickyP     int
-	MaxSteps    int
-	tasks       []*Task
-	yieldCh     chan yieldMsg
-	running     *Task
-	step        int
-	wg          sync.WaitGroup
-	pctChange   []int
-	GCSteps     []int // scheduler step after which each gc event fired
-	Overrun     bool  // MaxSteps exceeded: remaining tasks were run sequentially
-	InnerG      int   // inner yield points: after each resume the gap to the next inner yield is Draw(InnerG), 0 = none
-	InnerBudget int   // inner yields left in this run
-	innerGap    int
-	InnerSites  uint64 // bit per site: steps starting at these sites may be pre-empted at inner points (0 = all)
-	StallMax    int    // stall fault: a task pre-empted at an inner point is held back for Draw(StallMax) steps
-	spawned     []*Task
+	Strategy     int
+	StickyP      int
+	MaxSteps     int
+	tasks        []*Task
+	yieldCh      chan yieldMsg
+	running      *Task
+	step         int
+	wg           sync.WaitGroup
+	pctChange    []int
+	GCSteps      []int // scheduler step after which each gc event fired
+	Overrun      bool  // MaxSteps exceeded: remaining tasks were run sequentially
+	InnerG       int   // inner yield points: after each resume the gap to the next inner yield is Draw(InnerG), 0 = none
+	InnerBudget  int   // inner yields left in this run
+	innerGap     int
+	InnerSites   uint64 // bit per site: steps starting at these sites may be pre-empted at inner points (0 = all)
+	StallMax     int    // stall fault: a task pre-empted at an inner point is held back for Draw(StallMax) steps
+	spawned      []*Task
+	pointsInStep int
+	coopProgress int // successful cooperative operations (lock taken, value sent/received)
+	finishedRun  bool
+	clock
 
 	// measurements
 	Counters    [NumCounters]int64
@@ -234,7 +250,7 @@ func (s *Sim) ObjID(p unsafe.Pointer) int {
 
 // Go registers a task. Tasks start parked; Run releases them one at a time.
 func (s *Sim) Go(name string, fn func(*Task)) *Task {
-	t := &Task{ID: len(s.tasks), Name: name, sim: s, resume: make(chan int), fn: fn, parked: siteStart}
+	t := &Task{ID: len(s.tasks), Name: name, sim: s, resume: make(chan int), fn: fn, parked: siteStart, root: true}
 	s.tasks = append(s.tasks, t)
 	return t
 }
@@ -256,8 +272,10 @@ func (t *Task) main() {
 	t.sim.yieldCh <- yieldMsg{t.ID, siteDone}
 	raceEnable()
 	// The WaitGroup is the one synchronisation the race detector is allowed
-	// to see: every task happens-before the post-run inspection.
-	t.sim.wg.Done()
+	// to see: every harness task happens-before the post-run inspection.
+	if t.root {
+		t.sim.wg.Done()
+	}
 }
 
 // Yield parks the task until the scheduler releases it again. site names
@@ -266,6 +284,7 @@ func (t *Task) main() {
 //go:norace
 func (t *Task) Yield(site int) {
 	t.inner = false
+	t.blocked = false
 	t.yield(site)
 }
 
@@ -291,11 +310,25 @@ func (t *Task) Sim() *Sim { return t.sim }
 //go:norace
 func Point() {
 	s := cur
-	if s == nil || s.innerGap == 0 {
+	if s == nil {
 		return
 	}
 	t := s.running
-	if t == nil || t.lockDepth > 0 || getg() != t.g {
+	if t == nil || getg() != t.g {
+		return
+	}
+	s.pointsInStep++
+	if s.pointsInStep > spinLimit && t.lockDepth == 0 {
+		// The task has executed a very large number of statements without
+		// yielding: a spin-wait on something a parked task must change.
+		// Treat it as blocked (deterministic: it is a count, not a timeout).
+		s.Counters[CtSpinBreaks]++
+		t.blocked = true
+		t.inner = true
+		t.yield(t.parked)
+		return
+	}
+	if s.innerGap == 0 || t.lockDepth > 0 {
 		return
 	}
 	s.innerGap--
@@ -305,7 +338,32 @@ func Point() {
 	s.InnerBudget--
 	s.Counters[CtInnerYields]++
 	t.inner = true
+	t.blocked = false
 	t.yield(t.parked)
+}
+
+// Blocked is called inside the cooperative wait loops that the rewriter
+// substitutes for blocking operations of the library (mutex Lock, channel
+// send/receive, Cond.Wait, Sleep): the task could not proceed and hands
+// control back. It reports false when the caller is not the task the
+// scheduler released (set-up code, foreign goroutines): the caller then
+// falls back to the real blocking operation.
+//
+//go:norace
+func Blocked() bool {
+	s := cur
+	if s == nil {
+		return false
+	}
+	t := s.running
+	if t == nil || getg() != t.g {
+		return false
+	}
+	s.Counters[CtBlockedYields]++
+	t.blocked = true
+	t.inner = true
+	t.yield(t.parked)
+	return true
 }
 
 // Locked / Unlocking bracket the library's own critical sections (inserted by
@@ -335,12 +393,14 @@ func Unlocking() {
 //go:norace
 func Spawn(fn func()) {
 	s := cur
-	if s == nil || s.running == nil || getg() != s.running.g {
+	if s == nil || s.finishedRun || (s.running != nil && getg() != s.running.g) {
 		go fn()
 		return
 	}
-	t := &Task{ID: len(s.tasks), Name: "spawned-by-library", sim: s, resume: make(chan int), parked: siteStart,
-		fn: func(*Task) { fn() }}
+	// Called by the released task, or by the harness's set-up code before Run
+	// (e.g. a constructor that starts a background goroutine).
+	t := &Task{ID: len(s.tasks), Name: "started-by-library", sim: s, resume: make(chan int), parked: siteStart,
+		fn: func(*Task) { fn() }, started: true}
 	n := len(s.tasks)
 	bigger := make([]*Task, n+1)
 	for i := 0; i < n; i++ {
@@ -348,14 +408,19 @@ func Spawn(fn func()) {
 	}
 	bigger[n] = t
 	s.tasks = bigger
-	m := len(s.spawned)
-	sp := make([]*Task, m+1)
-	for i := 0; i < m; i++ {
-		sp[i] = s.spawned[i]
+	if s.running != nil {
+		m := len(s.spawned)
+		sp := make([]*Task, m+1)
+		for i := 0; i < m; i++ {
+			sp[i] = s.spawned[i]
+		}
+		sp[m] = t
+		s.spawned = sp
 	}
-	sp[m] = t
-	s.spawned = sp
-	s.wg.Add(1)
+	if s.Strategy == StratPCT {
+		t.prio = 1 + s.Sched.Draw(n+1)
+	}
+	s.Counters[CtSpawned]++
 	go t.main()
 }
 
@@ -403,6 +468,10 @@ func (s *Sim) Run(estSteps int) {
 	stop := make(chan struct{})
 	go s.watchdog(stop)
 	for _, t := range s.tasks {
+		if t.started {
+			continue
+		}
+		t.started = true
 		s.wg.Add(1)
 		go t.main() // goroutine creation: set-up happens-before every task
 	}
@@ -415,27 +484,72 @@ func (s *Sim) Run(estSteps int) {
 	var elig []*Task
 	lastSite := siteStart
 	lowPrio := 0
-	for len(runnable) > 0 {
+	blockedOnly := 0 // consecutive steps in which only blocked tasks could be run
+	rr := 0
+	for {
+		// Who is still alive?
+		k := 0
+		roots, awake := 0, 0
+		for i := 0; i < len(runnable); i++ {
+			if !runnable[i].finished {
+				runnable[k] = runnable[i]
+				k++
+				if runnable[i].root {
+					roots++
+				}
+				if !runnable[i].blocked {
+					awake++
+				}
+			}
+		}
+		runnable = runnable[:k]
+		if k == 0 || (roots == 0 && awake == 0) {
+			break // every harness task is done; goroutines the library started are idle
+		}
+		if s.step > 8*s.MaxSteps+1000 {
+			raceEnable()
+			fmt.Fprintln(os.Stderr, "INFRA: simulated run does not terminate (step cap exceeded 8x)")
+			os.Exit(2)
+		}
 		if s.GCNum > 0 && s.Sched.Coin(s.GCNum, FaultDen) {
 			s.GC()
 		}
+		s.advance(s.now + s.ClockTick)
 		strategy := s.Strategy
 		if s.step >= s.MaxSteps {
 			strategy = StratSequential
 			s.Overrun = true
 		}
-		// Stall fault: tasks held back are not eligible, unless all are.
-		all := runnable
-		if s.StallMax > 0 {
-			elig = elig[:0]
-			for i := 0; i < len(all); i++ {
-				if all[i].stallUntil <= s.step {
-					elig = append(elig, all[i])
+		// Eligibility: awake and not stalled; else awake; else everybody is
+		// blocked: jump the clock to the next timer, then let the blocked
+		// tasks retry in turn.
+		elig = elig[:0]
+		for i := 0; i < k; i++ {
+			if t := runnable[i]; !t.blocked && t.stallUntil <= s.step {
+				elig = append(elig, t)
+			}
+		}
+		if len(elig) == 0 {
+			for i := 0; i < k; i++ {
+				if t := runnable[i]; !t.blocked {
+					elig = append(elig, t)
 				}
 			}
-			if len(elig) > 0 {
-				runnable = elig
+		}
+		allBlocked := len(elig) == 0
+		if allBlocked {
+			if next, ok := s.nextTimer(); ok {
+				s.advance(next)
+				blockedOnly = 0
 			}
+			if blockedOnly > 3*k+16 {
+				raceEnable()
+				fmt.Fprintf(os.Stderr, "INFRA: deadlock among simulated tasks: all %d live tasks are blocked and no timer is pending (step %d)\n", k, s.step)
+				os.Exit(2)
+			}
+			elig = append(elig, runnable[rr%k])
+			rr++
+			strategy = StratSequential
 		}
 		idx := 0
 		switch strategy {
@@ -443,8 +557,8 @@ func (s *Sim) Run(estSteps int) {
 			idx = 0
 		case StratRoundRobin:
 			if last != nil {
-				for i := 0; i < len(runnable); i++ {
-					if runnable[i].ID > last.ID {
+				for i := 0; i < len(elig); i++ {
+					if elig[i].ID > last.ID {
 						idx = i
 						break
 					}
@@ -452,42 +566,43 @@ func (s *Sim) Run(estSteps int) {
 			}
 		case StratSticky:
 			at := -1
-			for i := 0; i < len(runnable); i++ {
-				if runnable[i] == last {
+			for i := 0; i < len(elig); i++ {
+				if elig[i] == last {
 					at = i
 				}
 			}
 			if at >= 0 && !s.Sched.Coin(1, s.StickyP) {
 				idx = at
 			} else {
-				idx = s.Sched.Draw(len(runnable))
+				idx = s.Sched.Draw(len(elig))
 			}
 		case StratRandom:
-			idx = s.Sched.Draw(len(runnable))
+			idx = s.Sched.Draw(len(elig))
 		case StratPCT:
-			for i := 1; i < len(runnable); i++ {
-				if runnable[i].prio > runnable[idx].prio {
+			for i := 1; i < len(elig); i++ {
+				if elig[i].prio > elig[idx].prio {
 					idx = i
 				}
 			}
 			for i := 0; i < len(s.pctChange); i++ {
 				if s.pctChange[i] == s.step+1 {
 					lowPrio--
-					runnable[idx].prio = lowPrio
+					elig[idx].prio = lowPrio
 					idx = 0
-					for k := 1; k < len(runnable); k++ {
-						if runnable[k].prio > runnable[idx].prio {
-							idx = k
+					for j := 1; j < len(elig); j++ {
+						if elig[j].prio > elig[idx].prio {
+							idx = j
 						}
 					}
 				}
 			}
 		}
-		t := runnable[idx]
+		t := elig[idx]
 		s.innerGap = 0
-		if s.InnerG > 0 && s.InnerBudget > 0 && (s.InnerSites == 0 || s.InnerSites&(1<<uint(t.parked)) != 0) {
+		if s.InnerG > 0 && s.InnerBudget > 0 && !t.blocked && (s.InnerSites == 0 || s.InnerSites&(1<<uint(t.parked)) != 0) {
 			s.innerGap = s.Sched.Draw(s.InnerG)
 		}
+		s.pointsInStep = 0
 		s.step++
 		s.Counters[CtSteps]++
 		s.progress.Add(1)
@@ -500,46 +615,51 @@ func (s *Sim) Run(estSteps int) {
 			s.mix(0xf000 | uint64(s.innerGap))
 		}
 		if s.Tracing {
-			if t.inner {
+			switch {
+			case t.blocked:
+				s.Tracef("step %d: task %d (%s) retries the operation it is blocked in (inside %s)", s.step, t.ID, t.Name, s.siteName(t.parked))
+			case t.inner:
 				s.Tracef("step %d: task %d (%s) continues inside %s (pre-empted at an inner point)", s.step, t.ID, t.Name, s.siteName(t.parked))
-			} else {
+			default:
 				s.Tracef("step %d: task %d (%s) runs %s", s.step, t.ID, t.Name, s.siteName(t.parked))
 			}
 		}
 		lastSite = t.parked
+		wasBlocked := t.blocked
+		progressBefore := s.coopProgress
 		s.running = t
 		t.resume <- s.step
 		m := <-s.yieldCh
 		s.running = nil
 		last = t
 		t.parked = m.site
-		runnable = all
-		if t.inner && s.StallMax > 0 && m.site != siteDone {
-			if k := s.Sched.Draw(s.StallMax); k > 0 {
-				t.stallUntil = s.step + k
-				s.Counters[CtFaultStall]++
-				s.mix(0xe000 | uint64(k))
-				if s.Tracing {
-					s.Tracef("  FAULT stall: task %d held back for %d steps at its inner point", t.ID, k)
-				}
-			}
-		}
 		for i := 0; i < len(s.spawned); i++ {
 			runnable = append(runnable, s.spawned[i])
 		}
 		s.spawned = nil
+		// Deadlock detection counts consecutive steps in which a blocked task
+		// retried and achieved nothing at all.
+		if t.blocked && wasBlocked && s.pointsInStep == 0 && s.coopProgress == progressBefore {
+			blockedOnly++
+		} else {
+			blockedOnly = 0
+		}
 		if m.site == siteDone {
 			t.finished = true
-			k := 0
-			for i := 0; i < len(runnable); i++ {
-				if runnable[i] != t {
-					runnable[k] = runnable[i]
-					k++
+			continue
+		}
+		if t.inner && !t.blocked && !wasBlocked && s.StallMax > 0 {
+			if d := s.Sched.Draw(s.StallMax); d > 0 {
+				t.stallUntil = s.step + d
+				s.Counters[CtFaultStall]++
+				s.mix(0xe000 | uint64(d))
+				if s.Tracing {
+					s.Tracef("  FAULT stall: task %d held back for %d steps at its inner point", t.ID, d)
 				}
 			}
-			runnable = runnable[:k]
 		}
 	}
+	s.finishedRun = true
 	raceEnable()
 	close(stop)
 	s.wg.Wait()
